@@ -414,6 +414,11 @@ func init() {
 		func(e *vh.Env, c c11Conc, o *vh.Out) {
 			o.Need("histories_checked", "ops_recorded", "traffic_requests")
 			names := []string{"a", "b", "c", "d"}
+			storm := c.Idx%4 == 3
+			if storm {
+				// a larger pool and listings running all the time: a listing overlaps most removals
+				names = []string{"a", "b", "c", "d", "e", "f", "g", "h", "i", "j"}
+			}
 			p := newC11Pool(append(append([]string{}, names...), "base"))
 			defer p.close()
 			cfg := baseConfig(c.Strategy, nil)
@@ -438,7 +443,32 @@ func init() {
 			}
 			var wg, wgAdm sync.WaitGroup
 			stop := make(chan struct{})
-			var trafficErr atomic.Value
+			var trafficErr, listErr atomic.Value
+			// doList records one listing as one read per name; the permanent member has to be in it, and no name twice
+			doList := func(cid int) {
+				call := tick()
+				infos, err := listBackends(adm)
+				if err != nil {
+					return
+				}
+				ret := tick()
+				count := map[string]int{}
+				for _, bi := range infos {
+					count[bi.Name]++
+					if count[bi.Name] == 2 {
+						listErr.Store(fmt.Sprintf("a listing names %q twice: %v", bi.Name, infos))
+					}
+				}
+				if count["base"] == 0 {
+					listErr.Store(fmt.Sprintf("a listing lacks the permanent member, which nobody removes: %v", infos))
+				}
+				o.Obs("listings", 1)
+				mu.Lock()
+				for _, nm := range names {
+					hist = append(hist, porcupine.Operation{ClientId: cid, Input: c11In{"list", nm}, Call: call, Output: c11Out{Contains: count[nm] > 0}, Return: ret})
+				}
+				mu.Unlock()
+			}
 			for a := 0; a < c.Admins; a++ {
 				a := a
 				wgAdm.Add(1)
@@ -460,26 +490,27 @@ func init() {
 						case k < 8:
 							adminDo(adm, "POST", "/v1/strategy", "127.0.0.1:1", nil, fmt.Sprintf(`{"strategy":%q}`, allStrategies[r.Intn(5)]))
 						default:
-							call := tick()
-							infos, err := listBackends(adm)
-							if err != nil {
-								continue
-							}
-							ret := tick()
-							mu.Lock()
-							for _, nm := range names {
-								has := false
-								for _, bi := range infos {
-									if bi.Name == nm {
-										has = true
-									}
-								}
-								hist = append(hist, porcupine.Operation{ClientId: a, Input: c11In{"list", nm}, Call: call, Output: c11Out{Contains: has}, Return: ret})
-							}
-							mu.Unlock()
+							doList(a)
 						}
 					}
 				}()
+			}
+			if storm {
+				for l := 0; l < 2; l++ {
+					l := l
+					wg.Add(1)
+					go func() {
+						defer wg.Done()
+						for i := 0; i < 400; i++ {
+							select {
+							case <-stop:
+								return
+							default:
+							}
+							doList(50 + l)
+						}
+					}()
+				}
 			}
 			for t := 0; t < 4; t++ {
 				t := t
@@ -536,6 +567,10 @@ func init() {
 			o.Obs("ops_recorded", int64(len(hist)))
 			if v := trafficErr.Load(); v != nil {
 				o.Viol("C11|conc|traffic-failed", fmt.Sprintf("%s admins=%d: %v", c.Strategy, c.Admins, v), nil)
+				return
+			}
+			if v := listErr.Load(); v != nil {
+				o.Viol("C11|conc|listing-not-a-set-of-members", fmt.Sprintf("%s admins=%d: %v", c.Strategy, c.Admins, v), nil)
 				return
 			}
 			res, info := porcupine.CheckOperationsVerbose(c11PorcModel, hist, 20*time.Second)
